@@ -206,6 +206,15 @@ def build(q, env, lib, knobs=None):
             keys = other[on].drop_duplicates()
             return x.merge(keys, how="inner", on=on)
         return x.merge(other, how=how, on=on, suffixes=sfx)
+    if op == "mergeasof":
+        other = env[q["other"]]
+        kw = {"left_index": True, "right_index": True, "direction": q["dir"]}
+        if q["by"]:
+            kw["by"] = list(q["by"]) if len(q["by"]) > 1 else q["by"][0]
+        if dask:
+            import dask_expr as dx
+            return dx.merge_asof(x, other, **kw)
+        return pd.merge_asof(x, other, **kw)
     if op == "concat":
         other = env[q["other"]]
         if dask:
